@@ -92,7 +92,7 @@ PROPS = {
                        "to_offset (C12 contract) followed by cursor_at_offset.",
         "trusted_base": COMMON_TRUST + ["Verus 0.2026.09.13 + Z3; vstd specs of Vec/slice/Option",
                                         "seam R4: BalancedParens::rank1 contract (C04), select_in_word contract (Kani, C02)"],
-        "assumptions": ["index invariant of callers (ib_rank built by build_ib_rank over the same words; bits past ib_len clear; < 2^32 interest bits; ib_len <= text.len())",
+        "assumptions": ["the index invariant ib_wf is ESTABLISHED by the real JsonIndex::build (proved in unit c07_ib for texts up to u32::MAX bytes: rank directory == cumulative popcount of the stored words, bits past ib_len clear), given the IB half of the builders' postcondition (one bit per input byte, zero padded: C05 units) as the contract of the dispatcher stub; from_parts callers must supply the same",
                         "JsonIndex<W> verified for W = Vec<u64> (the borrowed-storage instantiation runs the same text)"],
     },
     "C12": {
